@@ -235,6 +235,39 @@ def part_recordings(chk, n):
             chk.report('recording %s: %s' % (name, pr), {'kind': 'rewrap', 'file': os.path.relpath(r['path'], common.REPO)})
 
 
+def part_dump_binary(chk):
+    """the reader's own optional dump (`dump_binary=True` writes <basename>.hex into the working directory): after every read it must hold
+    exactly the stream just decoded -- also when an older dump of the same name (same or different length) is already there"""
+    from replay_unpack.replay_reader import ReplayReader
+    rng = chk.rng
+    base = os.path.join(run_dir(), 'dumpcwd')
+    os.makedirs(base, exist_ok=True)
+    old = os.getcwd()
+    os.chdir(base)
+    try:
+        for ext in EXTS:
+            n = rng.choice([40, 333, 5000])
+            streams = [rng.randbytes(n), rng.randbytes(n), bytes(n), rng.randbytes(n + 7), rng.randbytes(max(n - 9, 1))]
+            for k, stream in enumerate(streams):
+                d = os.path.join(base, 'battle%d' % k)
+                os.makedirs(d, exist_ok=True)
+                path = os.path.join(d, 'same.' + ext)
+                with open(path, 'wb') as f:
+                    f.write(container.write_container(ext, b'{"a": 1}', [], stream, level=rng.randint(0, 9), prefix=gen_prefix(rng, stream)))
+                info = ReplayReader(path, dump_binary=True).get_replay_data()
+                dump = os.path.join(base, 'same.%s.hex' % ext)
+                got = open(dump, 'rb').read() if os.path.exists(dump) else None
+                chk.count(('dump_binary', ext, k), True)
+                chk.dist('dump_binary')
+                if info.decrypted_data != stream or got != stream:
+                    chk.report('reader dump (dump_binary=True), read #%d of files called same.%s: the dump %s the decoded stream (%d bytes)' % (
+                        k + 1, ext, 'is missing instead of holding' if got is None else 'differs from', len(stream)),
+                        {'kind': 'dump-binary', 'ext': ext, 'read': k, 'stream': stream.hex()[:400], 'dump': (got or b'').hex()[:400]})
+                    break
+    finally:
+        os.chdir(old)
+
+
 def run(chk, drv):
     quick = chk.tier == 'quick'
     chk.cov['rule'] = ('containers written by the independent writer: the first 90 enumerate every stream length 0..8 for each of the three keys, the rest '
@@ -246,6 +279,7 @@ def run(chk, drv):
         check_case(chk, drv, gen_case(chk.rng, i), i)
     chk.cov['exhaustive_len_mod_8_per_key'] = True
     part_malformed(chk, drv)
+    part_dump_binary(chk)
     part_recordings(chk, 6 if quick else 1000)
     import shutil
     shutil.rmtree(run_dir(), ignore_errors=True)
